@@ -1,5 +1,6 @@
 import J5V.Pipe.Proofs
 import J5V.Pipe.WalkProofs
+import J5V.Pipe.Swagger
 import J5V.Generated.PipeFacts
 /-!
 # C16 — everything the compiler emits is consumable by the rest of the toolchain
@@ -171,6 +172,39 @@ theorem C16_refs_complete (g : Graph) (roots : List Field) (s : List Nat)
     (h : collect g roots = some s) : ∀ n, Reach g roots n → n ∈ s :=
   collect_complete g roots s h
 
+/-! ## list request: enum default filters (open finding `client:err:list-enum-default`) -/
+
+/-- full strength: `buildListRequest` never refuses the default filters of an enum field of a
+compiled package. The compiler does not look at `listRules.filtering.defaultFilters` at all, so
+"compiled" puts no condition on them. -/
+def ListDefaultsFull : Prop :=
+  ∀ (options defaults : List Str), defaultFiltersOk options defaults = true
+
+/-- false of the code as it is: `defaultFilters = ["BOGUS"]` on an enum with options RED / BLUE
+compiles and is refused by `j5client.APIFromSource` (replay: the corpus op with `shade fD R e Color`) -/
+theorem C16_list_defaults_counterexample : ¬ ListDefaultsFull := by
+  intro h
+  have := h [b!"UNSPECIFIED", b!"RED", b!"BLUE"] [b!"BOGUS"]
+  revert this
+  decide
+
+/-- … and holds exactly for the packages whose default filters name options of the enum -/
+theorem C16_list_defaults_partial (options defaults : List Str) :
+    defaultFiltersOk options defaults = true ↔ ∀ d ∈ defaults, d ∈ options := by
+  unfold defaultFiltersOk
+  simp [List.all_eq_true]
+
+/-! ## OpenAPI conversion -/
+
+/-- **`convertSchema` is total on well-formed schemas**, for every field type and any nesting of
+arrays, maps, inline objects and inline oneofs: it returns a schema exactly when every oneof
+wrapper of the input is set and no field pointer is nil — never an error, never a panic on what
+the schema reflection produces. (That the code has the fifteen arms this model has is the
+source-fact obligation `C16_swagger_total` below.) -/
+theorem C16_swagger_convert_total (f : SField) :
+    (∃ t, convertSchema f = .ok t) ↔ f.wellFormed = true :=
+  ⟨fun ⟨t, h⟩ => convertSchema_ok_wf f t h, convertSchema_total f⟩
+
 /-! ## the chain, composed, for declared services -/
 
 /-- **Client API exactness** on the composed models compile → structure → client, full strength
@@ -221,6 +255,11 @@ example : rewrite [b!"q", b!"barID"] b!"/bars/:barID" = .ok b!"/bars/{bar_id}" :
 example : LiteralsClean b!"/bars/:barID/x" ∧ SnakeInjective [b!"q", b!"barID"] := by decide
 example : ¬ LiteralsClean b!"/files/*" := by decide
 example : ¬ SnakeInjective [b!"fooId", b!"foo_id"] := by decide
+
+example : (SField.objInline [.key, .array (.map .timestamp), .oneofInline [.bytes, .decimal, .enumRef], .date]).wellFormed = true := by
+  decide
+example : convertSchema (.array (.objInline [.str, .oneofUnset])) = .err "unknown-schema-type" := by decide
+example : convertSchema (.map .nil) = .panic "nil-pointer" := by decide
 
 /-- a graph with a self loop, a two-cycle through a oneof, an enum leaf and an array edge -/
 def exampleGraph : Graph :=
